@@ -24,6 +24,15 @@ for i in range(len(CORPUS) + S.budget):
         where = {k: v for k, v in CORPUS[i].items() if k != 'note'}
         where['sections'] = [tuple(x) for x in where['sections']]
         secs, sp, mode = where['sections'], where['slurry'], where['mode']
+    elif rng.random() < 0.35:
+        # the pipelines of C09's quantifier proper: mixed diameters, zero-length interior sections, pumps anywhere
+        secs = pg.gen_sections(rng)
+        while not 1 <= sum(1 for x in secs if x[0] == 'U') <= 3:
+            secs = pg.gen_sections(rng)
+        sp = pc.random_slurry_params(rng)
+        sp['D50'] = math.exp(rng.uniform(math.log(1.2e-4), math.log(3e-3)))
+        mode = rng.choice(['torque', 'power', 'None'])
+        where = {'sections': secs, 'slurry': sp, 'mode': mode, 'generator': 'C09'}
     else:
         npipes = rng.randint(2, 5)
         d = rng.choice([0.5, 0.6, 0.762, 0.8636])
